@@ -1,4 +1,4 @@
-HOOK_COMMITS = ["8453496", "fa51c13", "887955e", "5499c55", "db47ff6", "b228aed", "355b9e4"]
+HOOK_COMMITS = ["8453496", "fa51c13", "887955e", "5499c55", "db47ff6", "b228aed", "355b9e4", "6156102"]
 NOT_APPLICABLE = {}
 META = {
     "C20": dict(
@@ -57,7 +57,7 @@ META = {
     ),
     "C15": dict(
         engine="E3 tcp",
-        technique="Lean 4 total decision table of connection outcomes with their metric calls (`outcome_table`), corollaries by case analysis; generated wiring facts (opened once before Handle, AddClosed once after handleConnection); differential correspondence with a per-connection recording TCPConnMetrics and socket-level byte counts",
+        technique="Lean 4 total decision table of connection outcomes with their metric calls (`outcome_table`), corollaries by case analysis; model of the counting wrapper metrics.MeasureConn with theorems for every sequence of reads/writes/copies with arbitrary short counts (write counter = bytes the connection accepted, read counter <= bytes delivered), tied by the `mconn` campaign; generated wiring facts (opened once before Handle, AddClosed once after handleConnection); differential correspondence with a per-connection recording TCPConnMetrics and socket-level byte counts",
         text="Kernel-checked: closed exactly once and last; authenticated reported at most once and iff authentication succeeded; probe reported iff it failed, with the bytes received; counters equal the bytes that crossed for relayed connections and never exceed the bytes sent otherwise.",
         note="Conditional on C18 (a handler panic would skip AddClosed). Trusted: Lean kernel, hand model, extractor wiring facts.",
     ),
